@@ -9,7 +9,7 @@ use std::collections::BTreeMap;
 use std::io::Write;
 use std::sync::Mutex as StdMutex;
 
-#[path = "/repo/bigtools/src/utils/file/tempfilebuffer.rs"]
+#[path = "../../.repo/bigtools/src/utils/file/tempfilebuffer.rs"]
 #[allow(dead_code)]
 mod tempfilebuffer;
 
